@@ -2,7 +2,7 @@
 import ast
 import struct
 
-from ..astutil import (AnalysisError, dotted, calls_in, last_attr, receiver, norm, is_name, walk_local, loc, short)
+from ..astutil import (canon, edge_fact, AnalysisError, dotted, calls_in, last_attr, receiver, norm, is_name, walk_local, loc, short)
 from ..cfg import is_flow, path_str
 
 EXPLANATION = (
@@ -62,10 +62,112 @@ class ExactRead:
         self.loop = None
 
 
-def analyse_exact_read(ctx, func, cls=None):
-    """Is `func(sock, size)` an exact-read construct?  Returns ExactRead."""
+def analyse_exact_read(ctx, func, cls=None, depth=0, delegates=None):
+    """Is `func(sock, size)` an exact-read construct?  Every value it returns must come from its own receive loop or from another function of the
+    package that is itself an exact-read construct and is handed the socket and the size (a fast path for big messages, say)."""
+    res = _analyse_one(ctx, func, cls)
+    for st in walk_local(func.node):
+        if isinstance(st, ast.Return) and isinstance(st.value, ast.Call):
+            r = ctx.prog.resolve_call(st.value, func, cls)
+            if r and r[0] == 'func' and r[1] is not func and depth < 2:
+                sub = analyse_exact_read(ctx, r[1], None, depth + 1, delegates)
+                if delegates is not None:
+                    delegates.add(r[1].qualname)
+                ctx.used(r[1])
+                want = [norm(ast.Name(id=p0, ctx=ast.Load())) for p0 in func.params[:2]]
+                if [norm(a) for a in st.value.args[:2]] != want:
+                    res.problems.append(f'`{norm(st.value)}` does not hand the socket and the requested size to {r[1].short}')
+                for pr in sub.problems:
+                    res.problems.append(f'{r[1].short} (which produces part of the results): {pr}')
+    res.ok = not res.problems
+    return res
+
+
+def _analyse_into(ctx, func, cls, loop):
+    """the recv_into idiom: `while received < size: count = sock.recv_into(view[received:]); if not count: raise; received += count`"""
+    res = ExactRead()
+    res.loop = loop
+    g = ctx.an.cfg(func, cls)
+    cnt = call = None
+    for n in walk_local(loop):
+        if isinstance(n, ast.Assign) and isinstance(n.value, ast.Call) and last_attr(n.value) == 'recv_into' and len(n.targets) == 1 and isinstance(n.targets[0], ast.Name):
+            cnt, call = n.targets[0].id, n.value
+    if cnt is None:
+        res.problems.append('the number of bytes recv_into() stored is not bound to a variable that could be tested for zero')
+        return res
+    recvd = None
+    for n in walk_local(loop):
+        if isinstance(n, ast.AugAssign) and isinstance(n.target, ast.Name) and isinstance(n.op, ast.Add) and is_name(n.value, cnt):
+            recvd = n.target.id
+    t = loop.test
+    size_expr = None
+    if recvd and isinstance(t, ast.Compare) and len(t.ops) == 1 and isinstance(t.ops[0], (ast.Lt, ast.NotEq)) and is_name(t.left, recvd):
+        size_expr = t.comparators[0]
+    else:
+        res.problems.append('loop condition does not compare the number of bytes received (advanced by what recv_into returned) with what was requested')
+    # the buffer: view[received:] of a buffer of exactly `size` bytes that this call created
+    buf = call.args[0] if call.args else None
+    base = buf.value if isinstance(buf, ast.Subscript) else buf
+    ok_req = isinstance(buf, ast.Subscript) and isinstance(buf.slice, ast.Slice) and recvd and is_name(buf.slice.lower, recvd) and buf.slice.upper is None
+    if len(call.args) > 1 and size_expr is not None and isinstance(call.args[1], ast.BinOp) and isinstance(call.args[1].op, ast.Sub) \
+            and norm(call.args[1].left) == norm(size_expr) and is_name(call.args[1].right, recvd):
+        ok_req = True
+    if not ok_req:
+        res.problems.append(f'recv_into request `{norm(call)}` is not bounded by the number of bytes still missing')
+    seen = set()
+    cur = base
+    fresh = False
+    while isinstance(cur, ast.Name) and cur.id not in seen:
+        seen.add(cur.id)
+        if any(isinstance(x, ast.Global) and cur.id in x.names for x in walk_local(func.node)):
+            break
+        defs = [st for st in func.node.body if isinstance(st, ast.Assign) and any(is_name(tg, cur.id) for tg in st.targets) and st.lineno < loop.lineno]
+        all_defs = [st for st in walk_local(func.node) if isinstance(st, ast.Assign) and any(is_name(tg, cur.id) for tg in st.targets)]
+        if len(defs) != 1 or len(all_defs) != 1:
+            break
+        v = defs[0].value
+        # memoryview(X)[:size] / memoryview(X) / bytearray(size)
+        if isinstance(v, ast.Subscript) and isinstance(v.slice, ast.Slice) and v.slice.lower is None and size_expr is not None and v.slice.upper is not None \
+                and norm(v.slice.upper) == norm(size_expr):
+            v = v.value
+        if isinstance(v, ast.Call) and is_name(v.func, 'memoryview') and v.args:
+            v = v.args[0]
+        if isinstance(v, ast.Call) and is_name(v.func, 'bytearray') and v.args and size_expr is not None and norm(v.args[0]) == norm(size_expr):
+            fresh = True
+            break
+        cur = v
+    if not fresh:
+        res.problems.append(f'the receive buffer `{norm(base) if base is not None else "?"}` is not created afresh (bytearray(size)) by every call - a module-level or reused '
+                            'buffer is shared by every thread that receives (each remote worker has its own receiving thread), so concurrent messages overwrite each other, '
+                            'and bytes of an aborted read stay behind')
+    tests = [n for n in g.nodes if n.kind == 'test' and isinstance(n.stmt, ast.If) and any(n.stmt is x for x in walk_local(loop)) and
+             (canon(n.stmt.test) in ((cnt, False), (f'{cnt} == 0', True), (f'{cnt} > 0', False), (f'{cnt} <= 0', True)))]
+    heads = [n for n in g.nodes if n.kind == 'join' and n.stmt is loop]
+    back_srcs = [e.src for h in heads for e in h.pred if e.kind == 'back']
+    if not tests:
+        res.problems.append('a zero count (end of stream) is never detected: a truncated stream spins forever')
+    else:
+        dom = g.dominators(edge_ok=is_flow)
+        tid = {x.id for x in tests}
+        if any(b.id in dom and not (dom[b.id] & tid) for b in back_srcs):
+            res.problems.append('a path around the loop avoids the zero-count test')
+        for tnode in tests:
+            starts = [e.dst for e in tnode.succ if e.kind in ('true', 'false') and edge_fact(e) in ((cnt, False), (f'{cnt} == 0', True), (f'{cnt} > 0', False), (f'{cnt} <= 0', True))]
+            reach = g.reachable(starts, edge_ok=lambda e: e.kind != 'async')
+            if any(n.id in reach and (n is g.exit or n in heads) for n in g.nodes):
+                res.problems.append('the zero-count branch does not leave the loop by raising')
+    if isinstance(size_expr, ast.Name):
+        res.size_param = size_expr.id
+    res.ok = not res.problems
+    return res
+
+
+def _analyse_one(ctx, func, cls=None):
     res = ExactRead()
     g = ctx.an.cfg(func, cls)
+    into = [l for l in _while_loops(func) if any(last_attr(c) == 'recv_into' for st in l.body for c in calls_in(st))]
+    if into and not any(_is_socket_recv(c) for l in _while_loops(func) for st in l.body for c in calls_in(st)):
+        return _analyse_into(ctx, func, cls, into[0])
     loops = [l for l in _while_loops(func) if any(_is_socket_recv(c) for st in l.body for c in calls_in(st))]
     if not loops:
         # MSG_WAITALL idiom
@@ -209,6 +311,7 @@ def run(ctx):
     consumers = [('header', unpacks[0], unpacks[0].args[1] if len(unpacks[0].args) > 1 else None),
                  ('body', loads[0], loads[0].args[0] if loads[0].args else None)]
     helpers = {}
+    delegated = set()
     header_size_expr = None
     body_size_expr = None
     for what, consumer, arg in consumers:
@@ -250,7 +353,7 @@ def run(ctx):
             continue
         ctx.used(producer)
         if producer.qualname not in helpers:
-            helpers[producer.qualname] = analyse_exact_read(ctx, producer)
+            helpers[producer.qualname] = analyse_exact_read(ctx, producer, None, 0, delegated)
         res = helpers[producer.qualname]
         ctx.check('R1', f'{what} bytes of recv_msg come from exact-read helper {producer.short}', res.ok,
                   producer.short, f'exact-read:{what}',
@@ -335,7 +438,7 @@ def run(ctx):
     ctx.check('R4', 'the bytes written are header followed by the body it describes', order_ok, 'remote.send_msg', 'write:order',
               f'send_msg writes {sent}: not <header><body>', where=loc(send_msg, writes[0]))
     # raw socket I/O outside the framing functions
-    allowed = {send_msg.qualname, recv_msg.qualname} | set(helpers)
+    allowed = {send_msg.qualname, recv_msg.qualname} | set(helpers) | delegated
     raw = []
     for f in P.funcs.values():
         if f.qualname in allowed or f.module.name.endswith('spawn_ssh_servers'):
